@@ -53,7 +53,7 @@ TEXT = {
     "C06": {
         "technique": "structure-aware mutation fuzzing driven by rapid (token spans from the reference decoder), truncation / bit flips / random bytes, evaluated in a worker subprocess with an address-space limit, watchdog and heap-footprint accounting; native coverage-guided fuzz targets in thorough",
         "design_ref": "DESIGN.md §5 C06, §3.4",
-        "level_text": "Single-token hostile replacements of every length / count / size / selector in valid files and record bodies, truncations, bit flips, header variants, arbitrary schema documents against catalogue targets and timestamp text are evaluated out of process: any panic, process death (fatal OOM, stack overflow), missing answer within 20 s (and again within 60 s in a second attempt) or heap growth beyond 32 MiB + 4096 x input is a violation. Sampled; multi-token malformations only via the thorough tier's fuzz targets. A grid of 1-2 MiB files with one altered length (memory bound 64 MiB + 16 x size) and of records with up to 140000 allocations read twice by a bank-closing consumer is sampled in quick and enumerated in thorough.",
+        "level_text": "Single-token hostile replacements of every length / count / size / selector in valid files and record bodies, truncations, bit flips, header variants, arbitrary schema documents against catalogue targets and timestamp text are evaluated out of process: any panic, process death (fatal OOM, stack overflow), missing answer within 20 s (and again within 60 s in a second attempt) or heap growth beyond 32 MiB + 4096 x input + 64 x the bytes its blocks expand to is a violation. Sampled; multi-token malformations only via the thorough tier's fuzz targets. A grid of 1-2 MiB files with one altered length (memory bound 64 MiB + 16 x size) and of records with up to 140000 allocations read twice by a bank-closing consumer is sampled in quick and enumerated in thorough.",
         "level_note": "The allocation bound is a threshold, not a proof of proportionality. Arrays with zero-width items and zero-width top-level records are excluded (legal amplification).",
     },
     "C07": {
